@@ -161,7 +161,9 @@ Section Model.
     i_authd : live t = true -> c_authd (p_c p) = false;
     i_offers : offers t ++ c_order (p_c p) = preference;
     i_safe : begin_safe unix t = true;
-    i_fd_prog : c_fdwait (p_c p) = true -> prog_after NoOk t <> NoOk;
+    (* while the handshake is open: "NEGOTIATE_UNIX_FD sent, not answered" (the model's
+       flag) only if an OK was received that no REJECTED has withdrawn since *)
+    i_fd_prog : live t = true -> c_fdwait (p_c p) = true -> prog_after NoOk t <> NoOk;
     i_fd_sent : c_fdwait (p_c p) = true -> existsb (is_tx w_NEGOTIATE_UNIX_FD) t = true
   }.
 
@@ -197,8 +199,9 @@ Section Model.
     apply prog_no_rx. exact H.
   Qed.
 
-  Lemma advance_from_prog q l : q <> NoOk -> advance q (Rx l) <> NoOk.
-  Proof. apply advance_not_back. Qed.
+  Lemma advance_from_prog q l :
+    str_eqb (word l) w_REJECTED = false -> q <> NoOk -> advance q (Rx l) <> NoOk.
+  Proof. intros W. apply advance_not_back. exact W. Qed.
 
   (* --- the ways a step can go, each preserving the invariant --------------- *)
 
@@ -213,26 +216,25 @@ Section Model.
     - rewrite live_app, L. cbn. discriminate.
     - rewrite offers_app. cbn. rewrite app_nil_r. exact Io.
     - apply begin_safe_snoc; [exact Is | reflexivity].
-    - intros F. rewrite prog_snoc; [apply advance_not_back, Ip, F|].
-      intros e [<-|F']; [exact I | contradiction].
+    - rewrite live_app, L. cbn. discriminate.
     - intros F. rewrite existsb_app, (In_ F). reflexivity.
   Qed.
 
   (* a neutral line is sent, the state changes at most in the nonce counter *)
   Lemma inv_neutral p t l c' x :
-    Inv p t -> live t = true -> neutral x ->
+    Inv p t -> live t = true -> str_eqb (word l) w_REJECTED = false -> neutral x ->
     c_unix c' = c_unix (p_c p) -> c_order c' = c_order (p_c p) ->
     c_authd c' = c_authd (p_c p) -> c_fdwait c' = c_fdwait (p_c p) ->
     Inv (mk_pst c' false false) (t ++ [Rx l; Tx x]).
   Proof.
-    intros I L (N1 & N2 & N3) E1 E2 E3 E4. destruct I as [Il Iu Ia Io Is Ip In_].
+    intros I L WR (N1 & N2 & N3) E1 E2 E3 E4. destruct I as [Il Iu Ia Io Is Ip In_].
     constructor; cbn [p_c p_closed p_done].
     - rewrite live_app, L. reflexivity.
     - rewrite E1. exact Iu.
     - intros _. rewrite E3. apply Ia, L.
     - rewrite offers_app, E2. cbn. rewrite N1. cbn. rewrite app_nil_r. exact Io.
     - apply begin_safe_snoc; [exact Is|]. cbn [begin_safe_from]. rewrite N2. reflexivity.
-    - rewrite E4. intros F. rewrite prog_snoc; [apply advance_not_back, Ip, F|].
+    - rewrite E4. intros _ F. rewrite prog_snoc; [apply advance_from_prog; [exact WR | exact (Ip L F)]|].
       intros e [<-|F']; [exact I | contradiction].
     - rewrite E4. intros F. rewrite existsb_app, (In_ F). reflexivity.
   Qed.
@@ -252,7 +254,7 @@ Section Model.
     - rewrite offers_app. cbn. rewrite (auth_line_offer user m M). cbn.
       rewrite <- app_assoc. cbn. rewrite <- E. exact Io.
     - apply begin_safe_snoc; [exact Is|]. cbn [begin_safe_from]. rewrite (auth_line_not_begin user m M). reflexivity.
-    - discriminate.
+    - intros _. discriminate.
     - discriminate.
   Qed.
 
@@ -268,8 +270,9 @@ Section Model.
     - intros _. apply Ia, L.
     - rewrite offers_app. cbn. rewrite app_nil_r. exact Io.
     - apply begin_safe_snoc; [exact Is | reflexivity].
-    - intros _. rewrite prog_snoc; [|intros e [<-|F']; [exact I | contradiction]].
-      cbn [advance]. destruct (prog_after NoOk t); [rewrite O; discriminate | destruct (fd_answer_line l); discriminate | discriminate].
+    - intros _ _. rewrite prog_snoc; [|intros e [<-|F']; [exact I | contradiction]].
+      cbn [advance]. rewrite (ok_line_not_rejected l O).
+      destruct (prog_after NoOk t); [rewrite O; discriminate | destruct (fd_answer_line l); discriminate | discriminate].
     - intros _. rewrite existsb_app. cbn. apply orb_true_r.
   Qed.
 
@@ -288,8 +291,7 @@ Section Model.
     - rewrite offers_app, E2. cbn. rewrite app_nil_r. exact Io.
     - apply begin_safe_snoc; [exact Is|]. cbn [begin_safe_from].
       change (str_eqb s_BEGIN w_BEGIN) with true. cbn iota. rewrite M. reflexivity.
-    - intros _. rewrite prog_snoc; [|intros e [<-|[<-|F']]; try exact I; contradiction].
-      intros E. rewrite E in M. discriminate.
+    - rewrite live_app, L. cbn. discriminate.
     - rewrite E3. intros F. rewrite existsb_app, (In_ F). reflexivity.
   Qed.
 
@@ -303,7 +305,7 @@ Section Model.
     - rewrite live_app, L. discriminate.
     - rewrite offers_app. cbn. rewrite app_nil_r. exact Io.
     - apply begin_safe_snoc; [exact Is | reflexivity].
-    - intros F. rewrite prog_snoc; [apply advance_not_back, Ip, F | intros e []].
+    - rewrite live_app, L. discriminate.
     - intros F. rewrite existsb_app, (In_ F). reflexivity.
   Qed.
 
@@ -495,7 +497,7 @@ Section Model.
       - cbn [set_authd c_authd] in ST. cbn in ST. injection ST as <- <-. split.
         + apply inv_begin with (p := p);
             [exact I | exact L | cbn [set_authd set_guid c_unix]; rewrite CU; exact IU | reflexivity | reflexivity |].
-          rewrite <- IU. cbn [advance].
+          rewrite <- IU. cbn [advance]. rewrite WR.
           destruct (prog_after NoOk t); [rewrite OK; reflexivity | destruct (fd_answer_line l); reflexivity | reflexivity].
         + apply v_plain; try assumption; [discriminate | reflexivity]. }
     destruct (str_eqb (word l) w_AGREE_UNIX_FD) eqn:WA.
@@ -504,7 +506,7 @@ Section Model.
       unfold auth_AGREE_UNIX_FD in ST. destruct (c_fdwait (p_c p)) eqn:FW.
       - cbn [set_authd c_authd] in ST. cbn in ST. injection ST as <- <-. split.
         + apply inv_begin with (p := p); [exact I | exact L | exact IU | reflexivity | reflexivity |].
-          pose proof (i_fd_prog _ _ I FW) as PR. cbn [advance].
+          pose proof (i_fd_prog _ _ I L FW) as PR. cbn [advance]. rewrite WR.
           assert (FA : fd_answer_line l = true) by (unfold fd_answer_line; rewrite WA; reflexivity).
           destruct (prog_after NoOk t); [congruence | rewrite FA; reflexivity | reflexivity].
         + apply v_plain; try assumption; [|discriminate | reflexivity].
@@ -521,7 +523,7 @@ Section Model.
     { unfold auth_ERROR in ST. destruct (c_fdwait (p_c p)) eqn:FW.
       - cbn [set_authd c_authd] in ST. cbn in ST. injection ST as <- <-. split.
         + apply inv_begin with (p := p); [exact I | exact L | exact IU | reflexivity | reflexivity |].
-          pose proof (i_fd_prog _ _ I FW) as PR. cbn [advance].
+          pose proof (i_fd_prog _ _ I L FW) as PR. cbn [advance]. rewrite WR.
           assert (FA : fd_answer_line l = true) by (unfold fd_answer_line; rewrite WE; apply orb_true_r).
           destruct (prog_after NoOk t); [congruence | rewrite FA; reflexivity | reflexivity].
         + apply v_begin_error; [exact L | apply out_ERROR; assumption | exact WR].
@@ -608,6 +610,7 @@ Section Corollaries.
   Lemma begin_only_after_ok pre post :
     tr = pre ++ Tx w_BEGIN :: post ->
     exists p1 l p2, pre = p1 ++ Rx l :: p2 /\ ok_line l = true /\
+      (forall r, In (Rx r) p2 -> str_eqb (word r) w_REJECTED = false) /\
       (unix = true -> exists l', In (Rx l') p2 /\ fd_answer_line l' = true).
   Proof.
     rewrite tr_eq. destruct (verdict_parts _ _ _ _ obs_favourable) as (_ & S & _ & _).
